@@ -34,8 +34,11 @@ from rdflib.namespace import XSD
 from curies.api import _get_shacl_line
 
 HERE = os.path.dirname(os.path.abspath(__file__))
-COQ = os.path.join(HERE, "coq")
-OUTDIR = os.path.join(HERE, "validate_out")
+VERIF = os.path.normpath(os.path.join(HERE, "..", ".."))
+SCRATCH = os.path.join(VERIF, "_build", "textlayer", "shacl")
+os.makedirs(SCRATCH, exist_ok=True)
+COQ = os.path.join(VERIF, "coq")
+OUTDIR = SCRATCH
 os.makedirs(OUTDIR, exist_ok=True)
 OUT = os.path.join(OUTDIR, "ValidateShaclText.v")
 SEED = int(os.environ.get("SEED", "20261001"))
@@ -360,7 +363,7 @@ def main():
             f.write(PRELUDE % SEED)
             f.write("".join(DIAG))
         r2 = subprocess.run(["timeout", "1500", "coqc", "-Q", COQ, "Curies", "ValidateShaclDiag.v"], cwd=OUTDIR, capture_output=True, text=True)
-        open(os.path.join(HERE, "diag.out"), "w").write(r2.stdout + r2.stderr)
+        open(os.path.join(SCRATCH, "diag.out"), "w").write(r2.stdout + r2.stderr)
         print("mismatching rows written to diag.out")
     if r.returncode == 0:
         total = len(wrows) + len(rrows) + sum(len(fam[k]) for k in fam)
